@@ -86,6 +86,20 @@ impl Check for RestartingSpeaker {
     }
 }
 
+/// Every path the RIB holds, selected or not (the Loc-RIB walk shows nothing of a deferred family).
+fn rib_paths_digest(t: &Topo) -> String {
+    let mut v: Vec<String> = Vec::new();
+    for f in FAMS {
+        for d in t.w.tables.collect_paths(table::TableQuery::Global, f, vec![], true) {
+            for p in &d.paths {
+                v.push(format!("{:?}|{}|{:?}|{}", d.net, p.source.remote_addr, p.attr, p.stale));
+            }
+        }
+    }
+    v.sort();
+    v.join("\n")
+}
+
 fn rib_digest(t: &Topo) -> String {
     let mut v: Vec<String> = Vec::new();
     for f in FAMS {
@@ -212,6 +226,7 @@ async fn run(case: Json, tol: Tolerate) -> Outcome {
         }
         // what the RIB holds and what the observer was sent so far, to tell a repeated release from a change
         let rib_before = rib_digest(&t);
+        let paths_before = rib_paths_digest(&t);
         let reach_before = t.nodes[obs].spk.reach_count.clone();
         match tag.as_str() {
             "up" => {
@@ -368,8 +383,11 @@ async fn run(case: Json, tol: Tolerate) -> Outcome {
                     // the family was released by this very op: everything held back is announced exactly once
                     out.hit("probe.family-released");
                     for (k, n) in t.nodes[obs].spk.reach_count.iter().filter(|(k, _)| k.0 == fk) {
-                        // (ops that landed on the expiry instant may legitimately have changed the best path right after the release)
-                        if *n != 1 && !unjudged {
+                        // (ops that landed on the expiry instant may legitimately have changed the best path right after the release;
+                        // so may a wait that is long enough to also cross a helper-side timer of ours: a stale path of a peer that
+                        // went away is purged after the release and the prefix is announced again with the path that is left)
+                        let purged_meanwhile = tag == "wait" && rib_paths_digest(&t) != paths_before;
+                        if *n != 1 && !unjudged && !purged_meanwhile {
                             fail!("release/prefix-not-announced-exactly-once", "op {} {}: {:?} announced {} times when family {} was released", opi, op.to_compact(), k, n, fam);
                         }
                     }
